@@ -325,7 +325,9 @@ Lemma upcast_id count a : arr_wf count a -> upcast_arr a = a.
 Proof.
   intros [_ [_ [_ Hst]]]. unfold upcast_arr, stored_ok in *.
   destruct (a_payload a) as [k|x y k|k|s k| |elems]; try reflexivity;
-    (destruct (dtype_eqb (a_dt a) DF16) eqn:E; [|reflexivity]; apply dtype_eqb_eq in E; rewrite E in Hst; discriminate Hst).
+    try (destruct (dtype_eqb (a_dt a) DF16) eqn:E; [|reflexivity]; apply dtype_eqb_eq in E; rewrite E in Hst; discriminate Hst).
+  destruct elems as [|e0 r]; [reflexivity|].
+  destruct (dtype_eqb (v_dt e0) DF16) eqn:E; [|reflexivity]. apply dtype_eqb_eq in E. rewrite E in Hst. discriminate Hst.
 Qed.
 
 (* every dtype name numpy knows in the table is one PropMetadata accepts *)
